@@ -76,7 +76,7 @@ class Prop(BaseProp):
         if route == "fake":
             letters, max_repeat, digits, word = None, 32, None, None   # the module-level generator has default knobs
         gcfg = G.Cfg(r, letters=letters or G.ASCII_LETTERS_DEFAULT, max_repeat=max_repeat,
-                     depth=r.choice((1, 2, 3, 4)), budget=r.choice((16, 64, 64, 256, 256, 1024, 4096)),
+                     depth=r.choice((1, 2, 3, 4)), budget=min(r.choice((16, 64, 64, 256, 256, 1024, 4096)), cfg.get("max_budget", 4096)),
                      p_unsup=r.choice((0.0, 0.0, 0.25, 1.0)), p_neg=r.choice((0.0, 0.25, 0.6)),
                      size=r.choice((1, 2, 3, 5)))
         gcfg.p_exhaust = r.choice((0.0, 0.0, 0.5))
@@ -129,7 +129,8 @@ class Prop(BaseProp):
         try:
             s = self._generate(case)
         except DrawCapExceeded:
-            raise
+            self.probes["skipped:draw_cap"] += 1
+            return "ok_skipped_draw_cap", "", w.draws, None
         except Exception as e:
             if unsup:
                 return "ok_refused", type(e).__name__, w.draws, None
